@@ -251,7 +251,7 @@ func main() {
 	sort.Strings(snames)
 	var b strings.Builder
 	b.WriteString("(* GENERATED by tools/genconst from /repo — do not edit. *)\n")
-	b.WriteString("From Coq Require Import NArith List.\nImport ListNotations.\nOpen Scope N_scope.\n\n")
+	b.WriteString("From Coq Require Import NArith List.\nImport ListNotations.\nLocal Open Scope N_scope.\n\n")
 	for _, n := range names {
 		v, ok := evalInt(constExpr[n], 0)
 		if !ok || v.Sign() < 0 {
